@@ -60,9 +60,11 @@ def zeroFinish (fin : List (Nat × α)) : List (Nat × α) → List (Nat × α)
 def resetVtime (c : WfqCfg α) (st : WfqSt α) : WfqSt α :=
   { st with vtime := Num.zero, finish := zeroFinish st.finish c.weights }
 
-/-- the first statement pair of `put`: reset when nothing is active, else advance virtual time -/
-def advance (c : WfqCfg α) (st : WfqSt α) (now : α) : Except SErr (WfqSt α) :=
-  if st.active.isEmpty then .ok (resetVtime c st) else updateVtime c st now
+/-- the first statement pair of `put`: `if self.total_packets == 0: reset_vtime() else: update_vtime()` — a new busy
+period starts when nothing is waiting or in transmission (the run loop may not yet have cleared the active set when
+the packet arrives in the very instant the last transmission ended) -/
+def advance (c : WfqCfg α) (st : WfqSt α) (now : α) (total : Int) : Except SErr (WfqSt α) :=
+  if total = 0 then .ok (resetVtime c st) else updateVtime c st now
 
 /-- `max(finish_times[c], vtime) + size * 8.0 / (rate * weights[c])` -/
 def stampOf (c : WfqCfg α) (f v w : α) (size : Nat) : α :=
@@ -87,11 +89,11 @@ def stampPut (c : WfqCfg α) (st : WfqSt α) (now : α) (cls size : Nat) : Excep
       else .ok (commit st cls (stampOf c f st.vtime w size) now, stampOf c f st.vtime w size)
 
 /-- `WFQ.put` up to `add_packet_to_queue` / `store.put` (which are the skeleton's) -/
-def put (c : WfqCfg α) (st : WfqSt α) (now : α) (p : SPkt) : Except SErr (WfqSt α × α) :=
+def put (c : WfqCfg α) (st : WfqSt α) (now : α) (total : Int) (p : SPkt) : Except SErr (WfqSt α × α) :=
   match lookup c.flow2class p.flow with
   | none => .error (.raise "KeyError")
   | some cls =>
-    match advance c st now with
+    match advance c st now total with
     | .error e => .error e
     | .ok st1 => stampPut c st1 now cls p.size
 
